@@ -7,7 +7,7 @@ pub mod general;
 #[macro_use]
 pub mod expression;
 pub mod functions;
-#[cfg(feature = "lua52")]
+#[cfg(any(feature = "lua52", feature = "luajit"))]
 pub mod lua52;
 #[cfg(feature = "lua54")]
 pub mod lua54;
